@@ -201,7 +201,14 @@ class ListOfUsersCollector(Mapper[None, Never, []]):
 
     map_roll = _map_index_remapping_base
     map_axis_permutation = _map_index_remapping_base
-    map_reshape = _map_index_remapping_base
+
+    def map_reshape(self, expr: Reshape) -> None:
+        for dim in expr.newshape:
+            if isinstance(dim, Array):
+                self.array_to_users[dim].append(expr)
+                self.rec(dim)
+
+        self._map_index_remapping_base(expr)
 
     def _map_input_base(self, expr: InputArgumentBase) -> None:
         for dim in expr.shape:
@@ -436,7 +443,10 @@ class ListOfDirectPredecessorsGetter(
 
     map_roll = _map_index_remapping_base
     map_axis_permutation = _map_index_remapping_base
-    map_reshape = _map_index_remapping_base
+
+    def map_reshape(self, expr: Reshape) -> list[ArrayOrNames]:
+        # (newshape is a field, traversed by all mappers)
+        return [*self._get_preds_from_shape(expr.newshape), expr.array]
 
     def _map_input_base(self, expr: InputArgumentBase) \
             -> list[ArrayOrNames]:
